@@ -123,8 +123,50 @@ class Lower:
         return None
 
     # ---- statements
+    def prefix_loop(self, stmts, i):
+        """const std::size_t K = L.size(); for (std::size_t j = 0; j < K; ++j) { const auto r = L[j]; REST }
+        with REST mentioning neither j nor K and using L only through push_back / begin / end:
+        the elements below K are those L held when K was read (push_back only appends), so this is
+            const auto SNAP = L; for (auto r : SNAP) REST"""
+        d, f = stmts[i], stmts[i + 1] if i + 1 < len(stmts) else None
+        if not (d[0] == 'decl' and len(d[2]) == 1 and d[2][0][1] is not None and d[2][0][1][0] == 'call' and d[2][0][1][2] == []
+                and d[2][0][1][1][0] == 'member' and d[2][0][1][1][2] == 'size' and f is not None and f[0] == 'for'):
+            return None
+        K, L = d[2][0][0], d[2][0][1][1][1]
+        if not (f[1] and f[1][0] == 'decl' and len(f[1][2]) == 1 and f[1][2][0][1] == ('num', 0)):
+            return None
+        j = f[1][2][0][0]
+        b = body_of(f[4])
+        if not (f[2] in (('bin', '<', ('id', j), ('id', K)), ('bin', '!=', ('id', j), ('id', K))) and f[3] == ('un', '++', ('id', j)) and b
+                and b[0][0] == 'decl' and len(b[0][2]) == 1 and b[0][2][0][1] == ('index', L, ('id', j))):
+            return None
+        rest = b[1:]
+        if mc._mentions(rest, j) or mc._mentions(rest, K) or mc._mentions(stmts[i + 2:], K):
+            return None
+
+        def only_appends(n):
+            if isinstance(n, list):
+                return all(only_appends(x) for x in n)
+            if isinstance(n, tuple):
+                if n == L:
+                    return False
+                if len(n) == 3 and n[0] == 'call' and n[1][0] == 'member' and n[1][1] == L and n[1][2] in ('push_back', 'emplace_back', 'begin', 'end', 'cbegin', 'cend'):
+                    return only_appends(n[2])
+                return all(only_appends(x) for x in n)
+            return True
+        if not only_appends(rest):
+            return None
+        snap = '__snapshot'
+        return [('decl', 'const auto', [(snap, L)]), ('rangefor', b[0][2][0][0], ('id', snap), ('block', rest))]
+
     def seq(self, stmts):
         stmts = nonempty(stmts)
+        k = 0
+        while k < len(stmts) - 1:
+            rep = self.prefix_loop(stmts, k)
+            if rep is not None:
+                stmts = stmts[:k] + rep + stmts[k + 2:]
+            k += 1
         out = []
         i = 0
         while i < len(stmts):
@@ -200,6 +242,14 @@ class Lower:
             if init is not None and self.obj(init, 'transitive_bases') == 'RRtc' and st[1] in ('const auto', 'auto') and self.stage == 'closure':
                 self.snap = name
                 return 'LSnapshot'
+            # const auto base_id = *base_iter;   another name for the id of the base at hand
+            if self.base_expr is not None and init == self.base_expr and st[1] in ('const auto', 'auto', 'const type_id', 'type_id'):
+                self.base_expr = ('id', name)
+                return 'LSkip'
+            # const auto mark = ++class_mark;   declared where it is drawn
+            if init == ('un', '++', ('id', 'class_mark')) and st[1] in ('const auto', 'auto', 'const std::size_t', 'std::size_t') and self.stage in ('dedup', 'direct'):
+                self.mark = name
+                return 'LNewMark'
             # decltype(rtc.transitive_bases) bases;
             if init is None and self.stage == 'dedup' and (st[1].startswith('decltype(') or st[1].startswith('std::vector<')):
                 self.snap = name
@@ -252,6 +302,9 @@ class Lower:
                     return '(LSetMark %s)' % r
                 if self.obj(e[2], 'weight') == 'RRtc' and self.snap and e[3] == call0(('id', self.snap), 'size'):
                     return 'LSetWeightLocal'
+                if (self.obj(e[2], 'weight') == 'RRtc' and e[3][0] == 'call' and e[3][2] == [] and e[3][1][0] == 'member' and e[3][1][2] == 'size'
+                        and self.obj(e[3][1][1], 'transitive_bases') == 'RRtc'):
+                    return 'LSetWeightTb'
             if e[0] == 'call' and e[1][0] == 'member' and e[1][2] == 'swap' and self.snap and self.stage == 'dedup':
                 a, b = e[1][1], e[2][0] if len(e[2]) == 1 else None
                 if (self.obj(a, 'transitive_bases') == 'RRtc' and b == ('id', self.snap)) or (a == ('id', self.snap) and b is not None and self.obj(b, 'transitive_bases') == 'RRtc'):
@@ -332,9 +385,19 @@ def main():
                 norm.append(('for', st, ('id', st[2][0][0]), None, flat[i + 1][2]))
                 i += 2
                 continue
+            # bool changed; do { changed = false; ... } while (changed);   runs its body at least once, like the for form
+            if (st[0] == 'decl' and st[1] == 'bool' and len(st[2]) == 1 and i + 1 < len(flat)
+                    and flat[i + 1][0] == 'dowhile' and flat[i + 1][2] == ('id', st[2][0][0])):
+                norm.append(('for', ('decl', 'bool', [(st[2][0][0], ('bool', True))]), ('id', st[2][0][0]), None, flat[i + 1][1]))
+                i += 2
+                continue
             norm.append(st)
             i += 1
         flat = norm
+        if len(flat) == 7 and not (flat[3][0] == 'decl'):
+            flat = flat[:3] + [('decl', 'std::size_t', [('mark', None)])] + flat[3:]      # no function-level mark: each loop declares its own
+        if len(flat) == 8 and flat[3] == ('expr', ('un', '++', ('id', 'class_mark'))):
+            flat[3] = ('decl', 'std::size_t', [('mark', ('un', '++', ('id', 'class_mark')))])   # a bare ++class_mark; (the value was never read)
         if len(flat) != 8:
             raise mc.Unsupported('augment_classes is no longer its eight loops (collect, bases, closure, mark, dedup, direct, derived, covariant): %d top-level statements' % len(flat))
         collect = catalog_stage(flat[0], 'collect')
